@@ -22,6 +22,7 @@ CONSTANTS C,            \* cluster size in bytes
           NClusters,    \* clusters 2..NClusters-1 are usable
           Mode,         \* "exhaustive" | "classes"
           MaxSamples, MaxChain, MaxPartials, MaxPatches, MaxPerfs, MaxVols,
+          Shared,       \* TRUE: a sample may live in the cluster chain of an earlier sample, behind a different leading-cluster offset
           EmitCases
 
 VARIABLES img, done, goal
@@ -106,6 +107,19 @@ NewSample ==
                                                      mode |-> mode, freq |-> freq, pts |-> pts, key |-> 60])]
   /\ UNCHANGED <<done, goal>>
 
+\* a sample stored in the chain of an earlier sample (same first cluster, same chain), its data behind a different
+\* leading-cluster offset: what `cluster_top` is for
+NewSharedSample ==
+  /\ ~done /\ Shared /\ Len(img.samples) < goal.ns
+  /\ \E b \in 1..Len(img.samples) : \E ctop \in {0, 1} :
+       LET base == img.samples[b]   n == Len(base.chain) IN
+       /\ ctop < n /\ ctop # base.ctop
+       /\ LET cap == ((n - ctop) * C) \div 2 IN
+          \E pts \in PtChoices(cap) : \E mode \in 0..6 : \E freq \in (IF Mode = "exhaustive" THEN {1} ELSE 0..5) :
+            img' = [img EXCEPT !.samples = Append(@, [name |-> SampleNames[Len(img.samples) + 1], chain |-> base.chain, ctop |-> ctop,
+                                                     mode |-> mode, freq |-> freq, pts |-> pts, key |-> 60])]
+  /\ UNCHANGED <<done, goal>>
+
 \* a partial references 1..4 samples (slots may repeat a sample)
 NewPartial ==
   /\ ~done /\ Len(img.samples) = goal.ns /\ Len(img.partials) < goal.npt
@@ -140,7 +154,7 @@ Finish ==
   /\ \E fv \in {1, 2}, spread \in BOOLEAN : img' = [img EXCEPT !.fatver = fv, !.spread = spread]
   /\ done' = TRUE /\ UNCHANGED goal
 
-Next == NewSample \/ NewPartial \/ NewPatch \/ NewPerf \/ NewVol \/ Finish
+Next == NewSample \/ NewSharedSample \/ NewPartial \/ NewPatch \/ NewPerf \/ NewVol \/ Finish
 Spec == Init /\ [][Next]_vars
 
 \* ---- design properties -----------------------------------------------------------------------
@@ -149,7 +163,8 @@ LayoutSane ==
        LET x == img.samples[s] IN
        /\ Cardinality(RangeOf(x.chain)) = Len(x.chain) /\ RangeOf(x.chain) \subseteq 2..(NClusters - 1)
        /\ 2 * (EndPoint(x) + 1) <= (Len(x.chain) - x.ctop) * C
-  /\ \A s1, s2 \in 1..Len(img.samples) : s1 # s2 => RangeOf(img.samples[s1].chain) \cap RangeOf(img.samples[s2].chain) = {}
+  /\ \A s1, s2 \in 1..Len(img.samples) : s1 # s2 => \/ RangeOf(img.samples[s1].chain) \cap RangeOf(img.samples[s2].chain) = {}
+                                                       \/ (Shared /\ img.samples[s1].chain = img.samples[s2].chain)
 
 AT == INSTANCE AllocTable WITH N <- NClusters + 10, Kind <- "roland", Alphabet <- {}, Lo <- 0, Hi <- 0,
          SatInstallOnVisited <- TRUE, SatInstallAtTableEnd <- TRUE, PathGuardIncrements <- TRUE,
